@@ -121,7 +121,7 @@ class MapState:
 
 
 class State:
-    __slots__ = ('pendload', 'arrinv', 'hitpairs', 'guards', 'aux', 'ghost', 'loops', 'frames', 'fmeta', 'objs', 'maps', 'zone', 'events', 'unwinding', 'depth',
+    __slots__ = ('loadcache', 'pendload', 'arrinv', 'hitpairs', 'guards', 'aux', 'ghost', 'loops', 'frames', 'fmeta', 'objs', 'maps', 'zone', 'events', 'unwinding', 'depth',
                  'next_id', 'assumed', 'notes', 'keep', 'pairs')
 
     def __init__(self):
@@ -137,6 +137,7 @@ class State:
         self.assumed = ()
         self.notes = ()
         self.keep = frozenset()   # heap cells that model caller-owned memory (never collected)
+        self.loadcache = {}       # (array tag, index term, field path) -> value already read from that element
         self.pendload = None      # one half of a pair being read field by field from a local array element
         self.arrinv = {}          # local array tag -> ('hit', mid, request-array tag) | None: what every pair stored there satisfied
         self.hitpairs = ()        # ((slot term, request index term, mid, request-array tag), ...) read back from such arrays
@@ -168,6 +169,7 @@ class State:
         s.arrinv = dict(self.arrinv)
         s.hitpairs = self.hitpairs
         s.pendload = self.pendload
+        s.loadcache = dict(self.loadcache)
         return s
 
     def new_id(self, prefix):
